@@ -133,13 +133,28 @@ def split_cases(cases, lines):
 
 def lr_struct_oracle(lines):
     """memory-safety predicates on the implementation's own dumps: no address on the chain from head, in a hazard-validated
-    position or in a retired list is in the pool's free list; no address is retired twice or free twice"""
+    position or in a retired list is in the pool's free list; no address is retired twice or free twice; a task that stands
+    AFTER its hazard validation (about to load / CAS through the validated pointer: kinds HZ1, CASN, CAST, CASH) has its
+    slot 0 naming an address that is not free (lfqr_no_use_after_free / lfqr_no_aba read on the implementation's trace)"""
+    mid = {}
     for l in lines:
         if not l.startswith("g "):
             continue
         p = [x.strip() for x in l.split("|")]
         if len(p) < 6:
             continue
+        g = p[0].split()
+        if len(g) >= 3 and g[2] != "-":
+            mid[int(g[1])] = g[2]
+        slots = [grp.split(":")[0].split() for grp in p[5][1:].split(";") if ":" in grp]
+        free_now = p[4].split(":")[1].split()
+        for t, k in mid.items():
+            if k in ("HZ1", "CASN", "CAST", "CASH") and t + 1 < len(slots) and len(slots[t + 1]) >= 1:
+                if slots[t + 1][0] == "0":
+                    return "task %d stands at %s after its hazard validation but its hazard slot 0 is empty" % (t, k)
+                if slots[t + 1][0] in free_now:
+                    return ("task %d stands at %s holding the validated node %s in hazard slot 0, but that node is in the pool's free "
+                            "list (freed while protected: use after free / ABA ahead)" % (t, k, slots[t + 1][0]))
         chain = p[1].split()
         if "CYCLE" in chain:
             return "queue chain became cyclic"
@@ -223,7 +238,7 @@ def run_lr(ctx, exe, drv, quick, acc):
         hdr0, _, _ = run_harness(exe, [], ns)
         fmax = int(hdr0[3])
         cases = [c for c in load_corpus("ext_lr.json") if len(c["progs"]) == K]
-        cases += [gen_lr(r, K, fmax, not quick) for _ in range((14 if ns == 3 else 8) if quick else 250)]
+        cases += [gen_lr(r, K, fmax, not quick) for _ in range((40 if ns == 3 else 25) if quick else 300)]
         hdr, hout, rc = run_harness(exe, cases, ns, timeout=900)
         rcm, mout, merr = core.run_lines(drv, [d_line(c, fmax) for c in cases], timeout=900)
         mout = [norm(l) for l in mout]
@@ -334,6 +349,12 @@ def gen_dm(rng, K, ns, thorough, nbrs=None):
             op(X, "e"); fin(X); op(X, "d"); fin(X)
             for _ in range(rng.range(2, 4)):
                 op(X, "e"); fin(X)
+            c2 = [x2 for x2, t in recv if t == d and x2 != x]
+            if c2 and K >= 2 and rng.chance(1, 2):        # a second advertiser into the same heap: insertion before / after `first`
+                x2 = rng.choice(c2)
+                E = rng.choice([t for t in range(K) if t != d])
+                for _ in range(rng.range(2, 3)):
+                    enq_to(E, x2); fin(E)
             for _ in range(rng.range(1, 3)):
                 op(d, "d")
                 if rng.chance(1, 2):
@@ -584,9 +605,9 @@ def dm_features(ml, il):
 
 def dm_run_impl(exe, cases, ns, timeout=600):
     """runs the cases through the harness; a case that ends with parked tasks (or a watchdog) ends the process: restart behind it"""
-    res = [None] * len(cases)
+    res = [["NOTRUN"]] * len(cases)     # NOTRUN: relaunch budget exhausted before the case (only when many cases end with stuck tasks)
     pos, launches, rc = 0, 0, None
-    while pos < len(cases) and launches < 40:
+    while pos < len(cases) and launches < 200:
         launches += 1
         _, lines, rc = run_harness(exe, cases[pos:], ns, timeout=timeout)
         chunks = split_cases(cases[pos:], lines)
@@ -596,6 +617,8 @@ def dm_run_impl(exe, cases, ns, timeout=600):
                 break
             res[pos + i] = ch
             done += 1
+        if done == 0:
+            res[pos] = None             # the process died before printing anything for this case
         pos += max(done, 1)
     return res, rc, launches
 
@@ -605,7 +628,7 @@ def run_dm(ctx, exe, drv, quick, acc):
     rng = ctx.rng
     t_start = time.time()
     corpus = load_corpus("ext_dm.json")
-    plan = [(2, 3, 10), (2, 4, 8), (3, 4, 12), (3, 5, 8)] if quick else [(2, 3, 500), (2, 4, 400), (3, 4, 700), (3, 5, 500)]
+    plan = [(2, 3, 60), (2, 4, 50), (3, 4, 70), (3, 5, 50)] if quick else [(2, 3, 1500), (2, 4, 1200), (3, 4, 2000), (3, 5, 1500)]
     by_ns = {}
     for K, ns, n in plan:
         by_ns.setdefault(ns, []).append((K, n))
@@ -632,6 +655,9 @@ def run_dm(ctx, exe, drv, quick, acc):
         hmod = split_cases(cases, [norm(l) for l in mout])
         for c, il, ml in zip(cases, impl, hmod):
             tag = dict(c, config="%dx1" % ns)
+            if il == ["NOTRUN"]:
+                acc["stats"]["dm_not_run"] = acc["stats"].get("dm_not_run", 0) + 1
+                continue
             acc["evals"] += 1
             acc["hist"]["DM"] = acc["hist"].get("DM", 0) + 1
             acc["stats"]["dm_shape_" + c.get("shape", "corpus")] = acc["stats"].get("dm_shape_" + c.get("shape", "corpus"), 0) + 1
